@@ -140,6 +140,13 @@ Theorem C13_percent_invalid : forall name mi mfi total,
 Proof. exact percent_invalid. Qed.
 Print Assumptions C13_percent_invalid.
 
+(* in particular names that are attributes / methods / dunders of the record but not fields
+   (count, index, _fields, _asdict, __class__, ...), for a vanished or unreadable process too *)
+Theorem C13_percent_attr_names_rejected : forall name mi mfi total,
+  In name attr_like_names -> memory_percent name mi mfi total = Exc ValueError.
+Proof. exact percent_attr_names_rejected. Qed.
+Print Assumptions C13_percent_attr_names_rejected.
+
 (* memory_percent over the kernel's files *)
 Theorem C13_percent_kernel : forall ex pagesize r ms name total,
   wf_statm r = true -> forallb (wf_kernel ex) ms = true -> 0 < total ->
